@@ -1,5 +1,6 @@
 (* Pinned statements for C14: a changed statement or a new axiom fails the check. *)
 From SwimV Require Import Model.NoCoalesce Proofs.CodecProofs Proofs.NoCoalesceProofs Props.C14.
+From SwimV Require Model.Commanders Proofs.CommandersProofs.
 Open Scope N_scope.
 Check (C14_supply_lane_exactly_once) : (forall ops s, events_of (srun s ops) ++ s_events (sfinal s ops) = s_events s ++ pushed_of ops /\ syncs_of (srun s ops) ++ s_syncs (sfinal s ops) = s_syncs s ++ synced_of ops).
 Print Assumptions C14_supply_lane_exactly_once.
@@ -19,3 +20,7 @@ Check (C14_keeps_never_drops_latest) : (forall A D, keeps A D -> forall A' b o, 
 Print Assumptions C14_keeps_never_drops_latest.
 Check (C14_keeps_in_order_at_most_once) : (forall A D, keeps A D -> exists mask, length mask = length A /\ D = map fst (map snd (filter fst (combine mask A)))).
 Print Assumptions C14_keeps_in_order_at_most_once.
+Check (C14_commands_reach_their_targets) : (forall ops ms, Commanders.arun Commanders.agent0 ops = Some ms -> Commanders.resolve [] ms = Some (Commanders.intended ops)).
+Print Assumptions C14_commands_reach_their_targets.
+Check (C14_commander_identifiers_are_stable) : (forall c addrs c', (forall a1 a2 i, Commanders.alookup a1 (Commanders.assigned c) = Some i -> Commanders.alookup a2 (Commanders.assigned c) = Some i -> a1 = a2) -> (forall a i, Commanders.alookup a (Commanders.assigned c) = Some i -> i < Commanders.next_id c) -> CommandersProofs.ids_after c addrs = Some c' -> (forall a i, Commanders.alookup a (Commanders.assigned c) = Some i -> Commanders.alookup a (Commanders.assigned c') = Some i) /\ (forall a1 a2 i, Commanders.alookup a1 (Commanders.assigned c') = Some i -> Commanders.alookup a2 (Commanders.assigned c') = Some i -> a1 = a2)).
+Print Assumptions C14_commander_identifiers_are_stable.
